@@ -477,3 +477,10 @@ class AppSettings2(metaclass=StableHashMeta):
 class Settings2:
     settings_two_name: str = ""
     options: dict[str, int] = field(default_factory=dict)
+
+
+@dataclass
+class BrokenHints:
+    """An application dataclass whose annotation string is not an expression; it only has to be loaded."""
+
+    broken_hint_field: "List[" = None  # noqa: F821
